@@ -158,6 +158,17 @@ theorem temporal_text_roundtrip (w : Wall) (hb : Bounded w) (hn : w.nanos % 1000
    fun i l hl hx => (FP.Props.C13.dateTime_roundtrip i l hl w hb hx hn).2,
    fun i l hl hx => (FP.Props.C13.time_roundtrip i l hl w hb hx hn).2⟩
 
+open FP.Model.Text FP.Model.Conv FP.Lemmas.Text FP.Gen.Layouts in
+/-- the same for values with digits below the millisecond (fraction digits 4..9): the rendering has
+    six or nine fraction digits and re-parses to the same layout, reading and offset -/
+theorem temporal_text_roundtrip_fine (w : Wall) (hb : Bounded w) (hn : w.nanos % 1000000 ≠ 0) :
+    (∀ (i : Nat) (l : String), parseDateTimeLayouts[i]? = some l → Expressible (fractionLayout (goLayout l.toList) w) w →
+      toDateTimeV (.str (formatT l w)) = .ok (some (.dateTime l w))) ∧
+    (∀ (i : Nat) (l : String), parseTimeLayouts[i]? = some l → Expressible (fractionLayout (goLayout l.toList) w) w →
+      toTimeV (.str (formatT l w)) = .ok (some (.time l w))) :=
+  ⟨fun i l hl hx => (FP.Props.C13.dateTime_roundtrip_fine i l hl w hb hn hx).2,
+   fun i l hl hx => (FP.Props.C13.time_roundtrip_fine i l hl w hb hn hx).2⟩
+
 open FP.Model FP.Model.Text FP.Model.Conv in
 /-- the canonical string form of a Decimal re-parses (`NewFromString ∘ String`) to a decimal of the
     same value, for every coefficient and every exponent the library can hold; the decimal literal
